@@ -255,7 +255,12 @@ func c10Reviewed(p *core.Prog) []reviewedSiteM {
 			if fq, _ := core.FieldLoad(x); fq != fQueue {
 				continue
 			}
-			if want(bo.Op, g.Pol, minus1) {
+			op, pol := bo.Op, g.Pol
+			if !pol {
+				op = map[token.Token]token.Token{token.LSS: token.GEQ, token.GEQ: token.LSS, token.GTR: token.LEQ, token.LEQ: token.GTR, token.EQL: token.NEQ, token.NEQ: token.EQL}[op]
+				pol = true
+			}
+			if want(op, pol, minus1) {
 				return true
 			}
 		}
@@ -305,7 +310,7 @@ func c10Reviewed(p *core.Prog) []reviewedSiteM {
 			if !guardIdxVsLen(s, func(op token.Token, pol, m1 bool) bool { return op == token.EQL && pol && m1 }) {
 				return false, "not dominated by indexPacket == len(queue)-1"
 			}
-			if !guardIdxVsLen(s, func(op token.Token, pol, m1 bool) bool { return op == token.GEQ && !pol && !m1 }) {
+			if !guardIdxVsLen(s, func(op token.Token, pol, m1 bool) bool { return op == token.LSS && pol && !m1 }) {
 				return false, "not dominated by the false edge of indexPacket >= len(queue)"
 			}
 			return idxPacketInvariant()
@@ -337,7 +342,7 @@ func c10Reviewed(p *core.Prog) []reviewedSiteM {
 			sl := s.Instr.(*ssa.Slice)
 			if c, isC := core.ConstInt64(sl.Low); isC && c == 1 {
 				// queue.queue[1:] — dominated by the false edge of indexPacket >= len(queue) with indexPacket == 0
-				if !guardIdxVsLen(s, func(op token.Token, pol, m1 bool) bool { return op == token.GEQ && !pol && !m1 }) {
+				if !guardIdxVsLen(s, func(op token.Token, pol, m1 bool) bool { return op == token.LSS && pol && !m1 }) {
 					return false, "queue[1:] is not dominated by the false edge of indexPacket >= len(queue)"
 				}
 				return true, ""
@@ -348,7 +353,7 @@ func c10Reviewed(p *core.Prog) []reviewedSiteM {
 			return idxPacketInvariant()
 		}},
 		{fn: "(*tds.PacketQueue).DiscardUntilCurrentPosition", kind: "index", reason: "dominated by the false edge of indexPacket >= len(queue)", match: loadOf(fQueue), check: func(r *core.Run, s lenSite) (bool, string) {
-			if !guardIdxVsLen(s, func(op token.Token, pol, m1 bool) bool { return op == token.GEQ && !pol && !m1 }) {
+			if !guardIdxVsLen(s, func(op token.Token, pol, m1 bool) bool { return op == token.LSS && pol && !m1 }) {
 				return false, "not dominated by the false edge of indexPacket >= len(queue)"
 			}
 			return idxPacketInvariant()
@@ -475,10 +480,11 @@ func c10Reviewed(p *core.Prog) []reviewedSiteM {
 				return false, "the counter is not advanced by exactly one per inner iteration from 0"
 			}
 			eight := false
+			le8 := newLenEngine(p)
 			for _, g := range core.GuardsAt(s.Instr) {
 				if bo, ok := g.Cond.(*ssa.BinOp); ok && bo.Op == token.LSS && g.Pol {
-					if c, isC := core.ConstInt64(bo.Y); isC && c == 8 {
-						eight = true
+					if ib := le8.intBounds(bo.Y, s.Instr, 0); ib.lo == 8 && ib.hi == 8 {
+						eight = true // the constant 8, or len() of the 8-element bit mask table
 					}
 				}
 			}
